@@ -39,6 +39,9 @@ def configs(tier):
     for centre in ('peak', 'trough'):
         for ncyc in ((4, 5), (3, 7)):
             out.append({'mode': 'cut', 'n': 4, 'rows': 1, 'centre': centre, 'ncyc': list(ncyc)})
+    # compute_band_amp called directly (it is public): the mean amplitude must not take the signal's dtype
+    for dt in ('float', 'int', 'int16'):
+        out.append({'mode': 'band', 'n': 5, 'rows': 2, 'centre': 'peak', 'dtype': dt})
     # cycles of ANY length: sample positions are unbounded integers, the signal is known only at the extrema
     for rows in ((1, 2) if q else (1, 2, 3)):
         for dt in ('float', 'int16'):
@@ -47,7 +50,7 @@ def configs(tier):
 
 
 def cost(cfg):
-    if cfg['mode'] == 'long':
+    if cfg['mode'] in ('long', 'band'):
         return 5
     if cfg['mode'] == 'e2e':
         return 4.0 ** (cfg['n'] + 2 * ((cfg['L'] + 1) // 2))
@@ -190,9 +193,42 @@ def run_long(ctx, cfg):
     ctx.prove_all(obl)
 
 
+def run_band(ctx, cfg):
+    np, pd = ctx.np, ctx.pd
+    sh = ctx.mod('bycycle.features.shape')
+    n, rows, dt = cfg['n'], cfg['rows'], cfg['dtype']
+    if dt == 'float':
+        x = [ctx.real('x%d' % i) for i in range(n)]
+        sig = np.array(list(x), dtype=float)
+    else:
+        x, sig = ctx.int_signal(['x%d' % i for i in range(n)], dt)
+    st = pipe.Stubs(ctx, 0)
+    ts = [ctx.integer('t%d' % j) for j in range(rows + 1)]
+    ctx.assume(ts[0] >= 0)
+    for j in range(1, rows + 1):
+        ctx.assume(ts[j] > ts[j - 1])
+    ctx.assume(ts[-1] <= n - 1)
+    tr = [ctx.toint(t) for t in ts]
+    df = pd.DataFrame({'sample_last_trough': tr[:-1], 'sample_peak': tr[:-1], 'sample_next_trough': tr[1:]})
+    try:
+        got = sh.compute_band_amp(df, sig, 1000.0, (8.0, 12.0))
+    except Exception as e:
+        ctx.fail(exc_label(e))
+        return
+    got = ctx.tolist(got)
+    ctx.obs('band_amp', got)
+    if not ctx.prove(len(got) == rows and len(st.amp) == 1, 'one band amplitude per cycle from one amplitude computation'):
+        return
+    amp = st.amp[0]['out']
+    ctx.prove_all([(ctx.eq(got[i] * (tr[i + 1] - tr[i]), sum(amp[tr[i]:tr[i + 1]])),
+                    'band_amp is the mean band amplitude over [last side, next side) whatever the signal dtype') for i in range(rows)])
+
+
 def run(ctx, cfg):
     if cfg['mode'] == 'long':
         return run_long(ctx, cfg)
+    if cfg['mode'] == 'band':
+        return run_band(ctx, cfg)
     np, pd = ctx.np, ctx.pd
     sh = ctx.mod('bycycle.features.shape')
     n, centre = cfg['n'], cfg['centre']
